@@ -538,7 +538,7 @@ func c16Check(w *mc.W, cs *c16Case) {
 			c16Render(im, rect0, op, func(d ivg.Destination) {
 				if v == 1 {
 					// the suggested entry 1 given again as an option, in another colour model (same colour)
-					derr = decode.Decode(d, b, decode.WithColorAt(1, color.NRGBA{0xff, 0xff, 0xff, 0x80}), decode.WithColorAt(7, color.NRGBA64{0x8080, 0x4040, 0x2020, 0xffff}))
+					derr = decode.Decode(d, b, decode.WithColorAt(1, color.NRGBA{0xff, 0xff, 0xff, 0x80}), decode.WithColorAt(7, color.RGBA64{0x80ab, 0x40cd, 0x20ef, 0xffff})) // low bytes unlike the high ones
 				} else {
 					derr = decode.Decode(d, b)
 				}
